@@ -63,16 +63,20 @@ func firstPositionMissing(g *model.G) bool {
 // geojsonExpect returns what the JSON must denote (jsonView), what decoding must
 // return (decoded) and whether the format can carry the geometry back at all.
 func geojsonExpect(g *model.G) (jsonView, decoded *model.G, readable bool) {
+	// geojson.DefaultLayout is a knob the caller may turn: a geometry without any
+	// position comes back in that layout, and a geometry whose first position is
+	// missing can be read only if its own layout is that one
+	def := geojson.DefaultLayout
 	jsonView = g.Clone()
 	readable = true
-	var fix func(x *model.G)
-	fix = func(x *model.G) {
+	var fix func(x *model.G, dec bool)
+	fix = func(x *model.G, dec bool) {
 		x.SRID = 0
 		if x.Kind == model.Collection {
 			x.Fixed = false
 			x.Layout = geom.NoLayout
 			for _, m := range x.Members {
-				fix(m)
+				fix(m, dec)
 			}
 			return
 		}
@@ -81,6 +85,9 @@ func geojsonExpect(g *model.G) (jsonView, decoded *model.G, readable bool) {
 		}
 		if x.IsEmpty() {
 			x.Layout = geom.XY
+			if dec {
+				x.Layout = def
+			}
 			if x.Kind == model.MultiPoint && len(x.C1) > 0 {
 				readable = false // only empty members: the first null position cannot be read
 			}
@@ -93,12 +100,14 @@ func geojsonExpect(g *model.G) (jsonView, decoded *model.G, readable bool) {
 				}
 			}
 		}
-		if x.Layout != geom.XY && firstPositionMissing(x) {
+		if x.Layout != def && firstPositionMissing(x) {
 			readable = false
 		}
 	}
-	fix(jsonView)
-	return jsonView, jsonView, readable
+	decoded = g.Clone()
+	fix(jsonView, false)
+	fix(decoded, true)
+	return jsonView, decoded, readable
 }
 
 func c07Geometry(c *fw.Ctx, idx int) {
@@ -110,6 +119,12 @@ func c07Geometry(c *fw.Ctx, idx int) {
 	var err error
 	if c.R.Chance(1, 4) {
 		codecNoise(c)
+	}
+	if r.Chance(1, 5) {
+		// the caller sets the layout empty geometries are to be given, for this case
+		geojson.DefaultLayout = []geom.Layout{geom.XYZ, geom.XYZM, geom.XY}[r.Intn(3)]
+		c.Count("default_layout_set_to_" + geojson.DefaultLayout.String())
+		defer func() { geojson.DefaultLayout = geom.XY }()
 	}
 	if c.Guard("panic", func() { data, err = geojson.Marshal(t) }) {
 		return
